@@ -5,6 +5,11 @@ pub mod c03;
 pub mod c05;
 pub mod c18;
 pub mod c19;
+pub mod c06;
+pub mod c08;
+pub mod c09;
+pub mod c15;
+pub mod c17;
 
 use crate::util::*;
 
@@ -16,6 +21,11 @@ pub fn run(p: &Params, rep: &mut Report) -> bool {
         "C05" => c05::run(p, rep),
         "C18" => c18::run(p, rep),
         "C19" => c19::run(p, rep),
+        "C06" => c06::run(p, rep),
+        "C08" => c08::run(p, rep),
+        "C09" => c09::run(p, rep),
+        "C15" => c15::run(p, rep),
+        "C17" => c17::run(p, rep),
         _ => return false,
     }
     true
@@ -29,6 +39,11 @@ pub fn replay(prop: &str, kind: &str, text: &str, seed: u64, rep: &mut Report) -
         "C05" => c05::replay(kind, text, seed, rep),
         "C18" => c18::replay(kind, text, seed, rep),
         "C19" => c19::replay(kind, text, seed, rep),
+        "C06" => c06::replay(kind, text, seed, rep),
+        "C08" => c08::replay(kind, text, seed, rep),
+        "C09" => c09::replay(kind, text, seed, rep),
+        "C15" => c15::replay(kind, text, seed, rep),
+        "C17" => c17::replay(kind, text, seed, rep),
         _ => false,
     }
 }
